@@ -979,6 +979,8 @@ class Engine:
         body = self.fd.body
         if body and isinstance(body[0], ast.Expr) and isinstance(body[0].value, ast.Constant) and isinstance(body[0].value.value, str):
             body = body[1:]
+        self.entry_premises = list(st.pc)
+        self.canaries = []
         outs = self.block(body, st)
         nret = 0
         for s2, out in outs:
@@ -986,6 +988,7 @@ class Engine:
                 out = ('return', None)
             if isinstance(out, tuple) and out[0] == 'return':
                 nret += 1
+                self.canaries.append(('return-path-r%d-reachable' % nret, list(s2.pc)))
                 s2.ghost['_result'] = out[1]
                 for name, src in self.c.ensures:
                     self.oblige(s2, 'ensures/%s/r%d' % (name, nret), truth(self.ev_str(src, s2)))
@@ -1109,6 +1112,10 @@ def _sb_snapshot(eng, st, node):
     return v
 
 
+def _sb_argref(eng, st, node):
+    return eng.entry.env[node.args[0].value]
+
+
 def _sb_same_object(eng, st, node):
     a, b = eng.ev(node.args[0], st), eng.ev(node.args[1], st)
     return isinstance(a, Ref) and isinstance(b, Ref) and a.oid == b.oid
@@ -1147,5 +1154,5 @@ SPEC_BUILTINS = {
     'totF': _mk_specfn(totF, 1), 'totFp': _mk_specfn(totFp, 1), 'totFn': _mk_specfn(totFn, 1),
     'rpos': _mk_specfn(rpos, 2), 'rneg': _mk_specfn(rneg, 2), 'cpos': _mk_specfn(cpos, 2), 'cneg': _mk_specfn(cneg, 2),
     'dot2': _sb_dot2, 'isperm': _sb_isperm, 'same_object': _sb_same_object, 'unchanged': _sb_unchanged,
-    'snapshot': _sb_snapshot, 'result': _sb_result, 'raised': _sb_raised, 'shape_is': _sb_shape_is,
+    'snapshot': _sb_snapshot, 'argref': _sb_argref, 'result': _sb_result, 'raised': _sb_raised, 'shape_is': _sb_shape_is,
 }
